@@ -73,8 +73,9 @@ MANIFEST = {
             "compact plan exists iff the class is flat; state bytes round-trip for single and union state_info. The model is "
             "tied to vgi_rpc/utils.py and _state_token.py by extraction of tables / shapes and by differential runs on generated "
             "dataclass types.",
-    "note": "pyarrow conversion and msgpack are environment (modelled as laws, exercised by the runs); two defects found and "
-            "repaired (set/dict element conversion; compact codec vs explicit ArrowType).",
+    "note": "pyarrow conversion and msgpack are environment (modelled as laws, exercised by the runs); three defects found and "
+            "repaired (set/dict element conversion; compact codec vs explicit ArrowType; None nested dataclass with an Enum field "
+            "produced bytes that full IPC validation rejects).",
     "technique": "Lean 4 proof: mutual structural induction over the annotation grammar + correspondence on generated dataclasses",
 }
 
